@@ -90,9 +90,11 @@ Definition cellnat (c : list R) (x : R) : nat := Nat.min (Nat.pred (ssleft c x))
 Lemma cell_index_nat (c : list R) x : (2 <= length c)%nat -> cell_index c x = Z.of_nat (cellnat c x).
 Proof.
   intros Hn. unfold cell_index, gen_cell_index, cellnat. cbv zeta.
-  destruct (Z.ltb_spec (Z.of_nat (ssleft c x) - 1) 0);
-  destruct (Z.ltb_spec (Z.of_nat (length c) - 2) 0);
-  try destruct (Z.ltb_spec (Z.of_nat (length c) - 2) (Z.of_nat (ssleft c x) - 1)); lia.
+  repeat match goal with
+  | |- context [(?a <? ?b)%Z] =>
+      lazymatch a with context [if _ then _ else _] => fail | _ =>
+      lazymatch b with context [if _ then _ else _] => fail | _ => destruct (Z.ltb_spec a b) end end
+  end; lia.
 Qed.
 
 (* position of x relative to the grid, and what the search returns *)
